@@ -5,3 +5,4 @@ import IbexModel.ItvG
 import IbexModel.Bwd
 import IbexModel.Expr
 import IbexModel.HC4
+import IbexModel.Cov
